@@ -64,6 +64,16 @@ def pytree_sessions(rng, n):
     out.append({"nocontext": False, "steps": [{"kind": "tree", "leaf": "int", "structure": "T", "value": ["t", [["i", 1]]]}, {"kind": "tree", "leaf": "int", "structure": "T U ...", "value": ["t", [["i", 1]]]}]})
     out.append({"nocontext": False, "steps": [{"kind": "tree", "leaf": ["arr", "Float", "a q+1"], "structure": "T", "value": ["t", [["a", [2, 3], "float32"]]]}]})
     out.append({"nocontext": False, "steps": [{"kind": "tree", "leaf": ["arr", "Float", "a"], "structure": "T", "value": ["t", [["a", [2], "float32"], ["s", "x"]]]}]})
+    # a broadcastable variadic already bound in the context is WIDENED by an earlier leaf (an overwrite, not a new name)
+    # before a later leaf fails or raises: the widening must be undone too
+    A3 = lambda *sh: ["a", list(sh), "float32"]
+    for leaves, lt in (([A3(4, 3), A3(2)], ["arr", "Float", "*#v"]), ([A3(4, 3), A3(4, 3), A3(5, 5)], ["arr", "Float", "*#v"]),
+                       ([A3(4, 3), A3(7)], ["union", [["arr", "Float", "*#v"], ["arr", "Float", "q+1"]]]), ([A3(1, 3), A3(6, 3), A3(2, 2)], ["arr", "Float", "*#v"])):
+        for cont in ("t", "l"):
+            for structure in (None, "T"):
+                out.append({"nocontext": False, "steps": [{"kind": "arr", "dim": "*#v", "shape": [1, 3]},
+                                                          {"kind": "tree", "leaf": lt, "structure": structure, "value": [cont, leaves]},
+                                                          {"kind": "arr", "dim": "*#v", "shape": [5, 3]}]})
     out += [c08.gen_session(rng) for _ in range(n)]
     return out
 
@@ -111,12 +121,23 @@ def main():
     proved = R.proof_step()
     n = 90000 if R.thorough else 2500
     sessions = engineered() + [G.gen_session(R.rng, raising=(i % 2 == 0), p_perturb=.5) for i in range(n)]
+    # nested annotations Shaped[Dtype[Array, dims], outer] with an outer part that names no axis: the model sees the flat
+    # annotation Dtype[Array, outer + " " + dims] that the nesting law (C15) makes it equal to
+    OUTER = [("...", [[], [4], [4, 2]]), ("3", [[3]]), ("_", [[5]]), ("", [[]]), ("_ 2", [[6, 2]])]
+    for sess in sessions[len(engineered()):]:
+        if R.rng.random() < .3:
+            for st in sess["steps"]:
+                if R.rng.random() < .6 and "*" not in st["dim"] and "..." not in st["dim"] and st.get("arr", "np") in ("np", "any"):
+                    o, pres = R.rng.choice(OUTER)
+                    st["outer"] = o
+                    st["shape"] = list(R.rng.choice(pres)) + list(st["shape"])
     out = vf.impl("impl_array.py", {"mode": "sessions", "sessions": sessions})
     impl, cats = out["results"], out["cat_dtypes"]
     terms = []
     for sess, res in zip(sessions, impl):
         syms = [s for r in res for s in r.get("syms", [])]
-        terms.append(G.session_coq(sess, cats, syms))
+        flat = dict(sess, steps=[dict(st, dim=(st["outer"] + " " + st["dim"]).strip()) if st.get("outer") is not None else st for st in sess["steps"]])
+        terms.append(G.session_coq(flat, cats, syms))
     model = vf.coq_eval_strings(["model.Check"], "fun c => let '(st, args, noctx, steps) := c in run_session st args noctx steps", terms, shard=500)
 
     nontriv, samples, nchecks = set(), [], 0
